@@ -119,7 +119,7 @@ def router_check(pid, tier):
         "known_findings_hit": hit,
         "pipeline_reused_from_cache": [r["kind"] for r in results if r.get("cached")],
         "samples": [s for r in results for s in r["samples"]][:4],
-        "server_level": ({"name_isolation_pairs": 10, "concurrent_first_registration_rounds": e2e_checks.TIERS[tier]["race"],
+        "server_level": ({"name_isolation_pairs": 13, "concurrent_first_registration_rounds": e2e_checks.TIERS[tier]["race"],
                           "events_validated": server_part["events"], "models": server_part["models"]} if server_part else None),
         "system_level_repliers": ({k: pl_part[k] for k in ("models", "schedules_distinct", "schedules_used", "events", "answers_checked",
                                                             "probes_after_changes", "n_viol", "n_inconclusive", "sample", "wall_s")} if pl_part else None),
@@ -323,7 +323,7 @@ def _pure(pid, tier):
         ev_path = os.path.join(os.path.dirname(os.path.dirname(os.path.abspath(__file__))), "evidence", "C07.json")
         ev = json.load(open(ev_path))
         ev["coverage"]["server_side"] = {"raw_peer_cases": sp["cases_used"], "events_validated": sp["events"],
-                                         "runs_flagged": len(viols), "isolation_pairs": 10}
+                                         "runs_flagged": len(viols), "isolation_pairs": 13}
         ev["violations"] = ev.get("violations", 0) + n_new
         json.dump(ev, open(ev_path, "w"), indent=1, sort_keys=True)
         rc = max(rc, rc2)
